@@ -266,7 +266,7 @@ def compact(case):
 
 def gen_ops():
     from .. import chkgen
-    plain = plotgen.plot_specs(thin=True, ndims=3, max_cells=1200, min_fields=2, max_fields=4,
+    plain = plotgen.plot_specs(thin=True, level_prefix=True, ndims=3, max_cells=1200, min_fields=2, max_fields=4,
                                payload_kinds=("coded", "random", "special")).map(lambda s: dict(op="gen", spec=s))
     from_chk = chkgen.chk_specs("quick").map(lambda c: dict(op="gen_chk", chk=c))
     return st.one_of(plain, plain, plain, plain, plain, from_chk)
